@@ -4302,3 +4302,98 @@ func ruleSegmentRefIffCarried(r *Report, rule string, in introducers) {
 		undecidedf("segment AddRef rule matched %d sites", n)
 	}
 }
+
+// ruleDeletedBitsWrittenForEverySegment (K5): prepareBoltSnapshot writes, for
+// every segment of the snapshot, the segment's current deleted bitmap under
+// BoltDeletedKey.  That write may depend on the bitmap being non-nil and on
+// earlier errors only - not on the kind of segment (already on disk vs. being
+// flushed by this very snapshot): a freshly flushed segment can already carry
+// obsoletions, and rollback to that epoch reads them from this key.
+func ruleDeletedBitsWrittenForEverySegment(r *Report, rule string) {
+	p := r.P
+	fi := p.MustFunc("index/scorch.prepareBoltSnapshot")
+	r.Fn(fi)
+	info := fi.Pkg.TypesInfo
+	g := buildCFG(info, fi.Decl.Body)
+	n := 0
+	for _, c := range callsIn(fi.Decl.Body) {
+		f := callee(info, c)
+		if f == nil || f.Name() != "Put" || len(c.Args) < 2 {
+			continue
+		}
+		if sel, ok := ast.Unparen(c.Args[0]).(*ast.SelectorExpr); !ok || sel.Sel.Name != "BoltDeletedKey" {
+			continue
+		}
+		n++
+		bad := ""
+		for _, fct := range g.GuardsOf(c) {
+			if fct.Tag != nil && fct.Truth {
+				bad = "case " + exprStr(fct.Expr) + " of switch on " + exprStr(fct.Tag)
+				continue
+			}
+			if _, _, isNil := nilTest(info, fct.Expr); isNil {
+				continue
+			}
+			if fct.Tag != nil {
+				continue // a false case fact (fell through other cases) does not restrict the kind
+			}
+			if id, isID := ast.Unparen(fct.Expr).(*ast.Ident); isID && commaOkKind[info.ObjectOf(id)] != "" {
+				bad = "type assertion " + id.Name
+			}
+		}
+		r.Ob(rule, fi.Name+"/deleted-bits-written-whatever-the-segment-kind", c.Pos(), bad == "", "the Put of BoltDeletedKey is conditional on "+bad+": the deleted bitmap has to be stored for every segment of the snapshot, including one that this snapshot flushes from memory (it may already carry obsoletions; a rollback to this epoch would resurrect them)")
+	}
+	if n < 1 {
+		undecidedf("%s: Put(BoltDeletedKey) not found", fi.Name)
+	}
+}
+
+// ruleLookupMissSkipsOnlyTheItem (K13): inside a loop over requested items
+// (fields, terms, ...), failing to find ONE item in a map must skip that item
+// (`continue`), not end the whole loop (`break`): the remaining items are
+// independent.  A break that is taken on a comma-ok map-lookup miss and that
+// targets the range loop is reported.
+func ruleLookupMissSkipsOnlyTheItem(r *Report, rule string, pkgs ...string) {
+	p := r.P
+	n := 0
+	for _, pk := range pkgs {
+		for _, fi := range p.funcsInPkg(pk) {
+			if fi.Decl.Body == nil {
+				continue
+			}
+			info := fi.Pkg.TypesInfo
+			ast.Inspect(fi.Decl.Body, func(x ast.Node) bool {
+				is, ok := x.(*ast.IfStmt)
+				if !ok || len(is.Body.List) == 0 {
+					return true
+				}
+				// `if !ok {` where ok is the comma-ok of a map lookup
+				u, ok := ast.Unparen(is.Cond).(*ast.UnaryExpr)
+				if !ok || u.Op != token.NOT || commaOkKind[objOf(info, u.X)] != "lookup" {
+					return true
+				}
+				// innermost loop around the if must be a range loop
+				var loop ast.Node
+				for _, anc := range enclosing(fi.Decl.Body, is) {
+					switch anc.(type) {
+					case *ast.RangeStmt, *ast.ForStmt:
+						loop = anc
+					}
+				}
+				if _, isRange := loop.(*ast.RangeStmt); !isRange {
+					return true
+				}
+				n++
+				last := is.Body.List[len(is.Body.List)-1]
+				bs, isBranch := last.(*ast.BranchStmt)
+				bad := isBranch && bs.Tok == token.BREAK && bs.Label == nil
+				r.Fn(fi)
+				r.Ob(rule, fi.Name+"/miss-of-"+exprStr(u.X)+"-does-not-end-the-loop", is.Pos(), !bad, "a map-lookup miss for one item of the range loop ends the loop with `break`: the remaining items (e.g. the other doc-value fields of the document) are never visited; a miss concerns only the current item (`continue`)")
+				return true
+			})
+		}
+	}
+	if n == 0 {
+		r.InfoOb(rule, "no-lookup-miss-branch-in-range-loops", 0, "no `if !ok {...}` on a map lookup inside a range loop in "+strings.Join(pkgs, ", "))
+	}
+}
